@@ -194,3 +194,48 @@ def compare_witness(cases, H, kind, style_seed=None):
                               "trace": [list(s) for s in key], "expected_bits": bits, "got_bits": got})
                 break
     return fails
+
+# --------------------------------------------------------------------------- C09 monitor
+
+def wellformed_violations(texts, H, **kw):
+    """
+    Run the implementation and check every answer set at every horizon: time stamps within 0..h,
+    exactly __initial(0) and __final(h), __future_p(args,n,k) accompanied by p(args,k).
+    Returns (number of answer sets inspected, list of violations).
+    """
+    import clingo
+    bad = []
+    count = [0]
+    def record(m, h):
+        count[0] += 1
+        syms = list(m.symbols(atoms=True))
+        sset = set(syms)
+        ini, fin = [], []
+        for s in syms:
+            if s.type != clingo.SymbolType.Function or not s.arguments:
+                continue
+            last = s.arguments[-1]
+            if last.type != clingo.SymbolType.Number:
+                continue
+            k = last.number
+            if s.name == "__initial" and len(s.arguments) == 1:
+                ini.append(k)
+            elif s.name == "__final" and len(s.arguments) == 1:
+                fin.append(k)
+            if not (0 <= k <= h):
+                bad.append({"what": "time stamp outside 0..h", "atom": str(s), "h": h})
+            if s.name.startswith("__future_") and len(s.arguments) >= 2:
+                target = clingo.Function(s.name[len("__future_"):], s.arguments[:-2] + [last], s.positive)
+                if target not in sset:
+                    bad.append({"what": "future atom without its target", "atom": str(s), "h": h})
+        if ini != [0]:
+            bad.append({"what": "states marked initial", "got": ini, "h": h})
+        if fin != [h]:
+            bad.append({"what": "states marked final", "got": fin, "h": h})
+    try:
+        tl.run_telingo(texts, H, record=record, **kw)
+    except BaseException as e:  # noqa
+        if isinstance(e, KeyboardInterrupt):
+            raise
+        bad.append({"what": "exception " + tl.classify_exc(e), "message": str(e)[:200]})
+    return count[0], bad[:5]
